@@ -817,7 +817,7 @@ fn exec_reader(case: &Case, data: &Arc<Vec<u8>>, ctx: &mut Ctx) -> Option<Violat
     };
     let orig_stream = stream.clone();
     let mut applied = apply_storage(&mut stream, &case.storage);
-    if case.knob("hostile") != 0 {
+    if case.knob("hostile") != 0 || case.knobs.contains_key("trailer_member") {
         let n = stream.len() as u64;
         let scaled: Vec<StFault> = case
             .storage
